@@ -340,3 +340,88 @@ func describeObj(o *iStruct) string {
 	}
 	return "a " + o.typ.Obj().Name() + " object"
 }
+
+// ifTruthCases: `@if(c) body @end` renders its body exactly when c is truthy — for every row of the truthiness table
+// (13 condition values, none a singleton) — and nothing when it is falsy; a failing c is the result.
+func (m *Model) ifTruthCases() (bad string, decided bool, why string) {
+	ev := m.Method("evaluator", "Evaluator", "Eval")
+	nt := m.namedType("ast", "IfStmt")
+	htmlT, nilT, errT := m.namedType("object", "HTML"), m.namedType("object", "Nil"), m.namedType("object", "Error")
+	truthy, falsy, ok := m.truthValues()
+	if ev == nil || nt == nil || htmlT == nil || nilT == nil || errT == nil || !ok {
+		return "", false, "Eval / ast.IfStmt / object types not found"
+	}
+	fCond, fCons, fAlts, fAlt := -1, -1, -1, -1
+	st := nt.Underlying().(*types.Struct)
+	for i := 0; i < st.NumFields(); i++ {
+		switch canonFieldName(nt, i, st.Field(i).Name()) {
+		case "Condition":
+			fCond = i
+		case "Consequence":
+			fCons = i
+		case "Alternatives":
+			fAlts = i
+		case "Alternative":
+			fAlt = i
+		}
+	}
+	blockT := m.namedType("ast", "BlockStmt")
+	if fCond < 0 || fCons < 0 || fAlts < 0 || fAlt < 0 || blockT == nil {
+		return "", false, "fields of ast.IfStmt not found"
+	}
+	type tc struct {
+		val  *iStruct
+		want string
+	}
+	var cases []tc
+	for _, v := range truthy {
+		cases = append(cases, tc{v, "body"})
+	}
+	for _, v := range falsy {
+		cases = append(cases, tc{v, "nil"})
+	}
+	cases = append(cases, tc{&iStruct{typ: errT, fields: map[int]any{}}, "error"})
+	for _, c := range cases {
+		cnode := iObj{"condition"}
+		body := &iStruct{typ: blockT, fields: map[int]any{}}
+		bodyRes := &iStruct{typ: htmlT, fields: map[int]any{}}
+		node := &iStruct{typ: nt, fields: map[int]any{fCond: cnode, fCons: body, fAlts: iSlice{&iArr{}, 0, 0}, fAlt: iNil{}}}
+		ip := &Interp{m: m, useGlobals: true}
+		nCond, nBody := 0, 0
+		ip.call = func(cl *ssa.Call, args []any) (any, bool) {
+			if cl.Call.StaticCallee() == ev && len(args) >= 2 {
+				switch args[1] {
+				case any(cnode):
+					nCond++
+					return c.val, true
+				case any(body):
+					nBody++
+					return bodyRes, true
+				}
+			}
+			return nil, false
+		}
+		res, known := ip.Run(ev, []any{iObj{"evaluator"}, node, &iStruct{typ: m.namedType("object", "Env"), fields: map[int]any{}}})
+		if ip.stuck != "" || len(ip.lost) > 0 {
+			return "", false, "condition " + describeObj(c.val) + ": " + ip.stuck
+		}
+		got := "something else"
+		o, isO := res.(*iStruct)
+		switch {
+		case known && isO && o == bodyRes:
+			got = "body"
+		case known && isO && o.typ == nilT:
+			got = "nil"
+		case known && isO && o == c.val && o.typ == errT:
+			got = "error"
+		}
+		if nCond != 1 {
+			return fmt.Sprintf("the condition is evaluated %d times", nCond), true, ""
+		}
+		if got != c.want || (c.want == "body") != (nBody == 1) {
+			words := map[string]string{"body": "its body", "nil": "nothing (the nil object)", "error": "the condition's error", "something else": "something else"}
+			return fmt.Sprintf("with the condition %s it yields %s, expected %s", describeObj(c.val), words[got], words[c.want]), true, ""
+		}
+	}
+	return "", true, ""
+}
